@@ -65,7 +65,7 @@ def gen_solver_plan(seed, tier, prop, knobs=None):
     k = dict(DEFAULT_KNOBS); k.update(knobs or {})
     rng = sub_rng(seed, 'plan')
     solver = rng.choice(k['solvers'])
-    dim = rng.randint(1, k['max_dim'])
+    dim = rng.randint(k.get('min_dim', 1), k['max_dim'])
     plan = {'property': prop, 'seed': seed, 'tier': tier, 'solver': solver, 'dim': dim,
             'lib_seed': rng.randrange(1 << 30)}
     if solver in ('DE', 'DE2'):
